@@ -478,10 +478,10 @@ def bi_sorted(e, st, args, kw, node):
                 eqk = ki == kj
     finally:
         del e.qvars[-2:]
-    pat = z3.MultiPattern(z3.Select(S.arrs[0], S.off + i), z3.Select(S.arrs[0], S.off + j))
+    pat = MP(z3.Select(S.arrs[0], S.off + i), z3.Select(S.arrs[0], S.off + j))
     st.assume(z3.ForAll([i, j], z3.Implies(z3.And(0 <= i, i <= j, j < n), le), patterns=[pat]))
     st.assume(z3.ForAll([i, j], z3.Implies(z3.And(0 <= i, i < j, j < n, eqk), pi(i) < pi(j)),
-                        patterns=[z3.MultiPattern(pi(i), pi(j))]))
+                        patterns=[MP(pi(i), pi(j))]))
     st.assume(*e.wf(S, st))
     e.last_sorted = dict(S=S, X=X, pi=pi, pinv=pinv)
     return st, st.new_list(S)
@@ -514,14 +514,14 @@ def bi_itertools_groupby(e, st, args, kw, node):
     selS = lambda k: z3.Select(S.arrs[0], S.off + k)
     st.assume(G >= 0, b(0) == 0, b(G) == n, z3.Implies(n == 0, G == 0), z3.Implies(n > 0, G > 0),
               z3.ForAll([g, h], z3.Implies(z3.And(0 <= g, g < h, h <= G), b(g) < b(h)),
-                        patterns=[z3.MultiPattern(b(g), b(h))]),
+                        patterns=[MP(b(g), b(h))]),
               z3.ForAll([g], z3.Implies(z3.And(0 <= g, g <= G), z3.And(0 <= b(g), b(g) <= n)), patterns=[b(g)]),
               z3.ForAll([t], z3.Implies(z3.And(0 <= t, t < n),
                                         z3.And(0 <= grp(t), grp(t) < G, b(grp(t)) <= t, t < b(grp(t) + 1))),
                         patterns=[grp(t)]),
               z3.ForAll([g, t], z3.Implies(z3.And(0 <= g, g < G, b(g) <= t, t < b(g + 1)),
                                            z3.And(kS_t == kS_bg, grp(t) == g)),
-                        patterns=[z3.MultiPattern(b(g), selS(t))]),
+                        patterns=[MP(b(g), selS(t))]),
               # maximality: neighbouring runs have different keys
               z3.ForAll([g], z3.Implies(z3.And(0 <= g, g + 1 < G), kS_bg != kS_bg1), patterns=[b(g + 1)]))
     vg = VGroups(S, G, b, keyterm, e)
